@@ -1,8 +1,23 @@
 package syntax
 
 import (
+	"fmt"
+
 	"github.com/arr-ai/arrai/rel"
 )
+
+// setCompare guards a set comparison: both operands must be sets.
+func setCompare(op string, negate bool, f func(a, b rel.Value) bool) func(a, b rel.Value) (bool, error) {
+	return func(a, b rel.Value) (bool, error) {
+		if _, is := a.(rel.Set); !is {
+			return false, fmt.Errorf("%s lhs not a set: %v", op, a)
+		}
+		if _, is := b.(rel.Set); !is {
+			return false, fmt.Errorf("%s rhs not a set: %v", op, b)
+		}
+		return f(a, b) != negate, nil
+	}
+}
 
 func subset(a, b rel.Value) bool {
 	s := a.(rel.Set)
